@@ -9,6 +9,86 @@ import check
 import facts
 
 
+REQUIRES = {"C07": "async", "C08": "async", "C09": "async", "C10": "async", "C11": "async", "C12": "async",
+            "C13": "async", "C14": "async", "C20": "http"}
+
+
+def all_configs():
+    feats = facts.ALL_FEATURES
+    out = []
+    for mask in range(1 << len(feats)):
+        fs = tuple(f for i, f in enumerate(feats) if mask & (1 << i))
+        for release in (False, True):
+            out.append((fs, release))
+    return out
+
+
+def run_thorough(prop, mod):
+    """Every rule in every feature configuration that compiles its subject (16 feature sets x debug / release),
+    then the self-validation corpus of the property (seeded breaking edits must fire, benign edits must stay silent)."""
+    import subprocess
+    rep = check.Report(prop, "thorough")
+    captured = {}
+    orig_load = facts.load
+    need = REQUIRES.get(prop)
+    ok_keys = None
+    per_cfg = []
+    try:
+        for (fs, release) in all_configs():
+            label = "%s/%s" % (",".join(fs) or "none", "release" if release else "debug")
+            if need and need not in fs:
+                per_cfg.append({"config": label, "skipped": "subject needs feature %s" % need})
+                continue
+            try:
+                fx = orig_load(fs, release)
+            except facts.ExtractError as e:
+                rep.undecidable("E1", "extraction[%s]" % label, str(e)[-400:])
+                continue
+            sr = check.Report(prop, "thorough")
+
+            def fake_finish(explanation, level="other", not_decided="", _sr=sr):
+                captured["explanation"] = explanation
+                captured["not_decided"] = not_decided
+                return 0
+            sr.finish = fake_finish
+            facts.load = lambda *a, _fx=fx, **k: _fx
+            mod.main(sr, "quick")
+            keys = sorted(i["instance"] for i in sr.instances if i["status"] == "ok")
+            per_cfg.append({"config": label, "bodies": len(fx.bodies), "instances": len(sr.instances), "violations": len(sr.violations)})
+            for v in sr.violations:
+                rep.violation(v["rule"], "%s [%s]" % (v["key"].split("/", 2)[2] if v["key"].count("/") >= 2 else v["key"], label), v["detail"], v["loc"], v["path"])
+            if not rep.rules:
+                rep.rules.update(sr.rules)
+                rep.assumptions.extend(a for a in sr.assumptions if a not in rep.assumptions)
+            if label == "async,http/debug":
+                for i in sr.instances:
+                    if i["status"] == "ok":
+                        rep.instances.append(i)
+                rep.stats.update(sr.stats)
+                rep.notes.extend(sr.notes)
+            else:
+                rep.ok("CFG", "all-rules[%s]" % label, "%d rule instances discharged in this configuration" % len(keys))
+    finally:
+        facts.load = orig_load
+    rep.configs = per_cfg
+    # self-validation corpus
+    st = os.path.join(check.VERIF, "selftest", "run.py")
+    r = subprocess.run([sys.executable, st, prop], capture_output=True, text=True)
+    results = []
+    for line in r.stdout.splitlines():
+        parts = line.split(None, 1)
+        if len(parts) == 2:
+            results.append({"mutant": parts[0], "result": parts[1]})
+            if parts[1].startswith("FAIL") or parts[1].startswith("ERROR"):
+                rep.undecidable("SELFTEST", parts[0], "self-validation failed: %s" % parts[1])
+            elif parts[1].startswith("ok"):
+                rep.ok("SELFTEST", parts[0], parts[1])
+    rep.stats["selftest"] = results
+    rep.rule("CFG", "every rule holds in every feature configuration that compiles its subject (16 feature sets x debug/release)")
+    rep.rule("SELFTEST", "each seeded property-breaking edit of the corpus makes its rule fire; each benign edit leaves the check silent (skipped when /repo was edited so that the anchor text no longer applies)")
+    return rep.finish(captured.get("explanation", ""), not_decided=captured.get("not_decided", ""))
+
+
 def run_check(prop, tier):
     rep = check.Report(prop, tier)
     try:
@@ -17,6 +97,8 @@ def run_check(prop, tier):
         print("no rules for %s" % prop)
         return 2
     try:
+        if tier == "thorough":
+            return run_thorough(prop, mod)
         return mod.main(rep, tier)
     except facts.ExtractError as e:
         rep.undecidable("E1", "extraction", str(e))
